@@ -72,6 +72,13 @@ func genCase(t *rapid.T) *symCase {
 		if rapid.IntRange(0, 5).Draw(t, "weirdfile") == 0 {
 			p.Mappings[i].File = rapid.SampledFrom([]string{"", "[vdso]", "http://host/debug/pprof/profile", "//anon", "/dev/dri/card0"}).Draw(t, "mfile")
 		}
+		if rapid.IntRange(0, 7).Draw(t, "placeholder") == 0 {
+			// a placeholder mapping as some producers write it: a file name but no address range
+			p.Mappings[i].Start, p.Mappings[i].Limit = rapid.SampledFrom([][2]uint64{{0, 0}, {0x400000, 0}, {0, 1<<64 - 1}}).Draw(t, "phrange")[0], 0
+			if rapid.Bool().Draw(t, "phmax") {
+				p.Mappings[i].Limit = 1<<64 - 1
+			}
+		}
 	}
 	// two binaries loaded at the same base (a profile merged from different processes): locations of
 	// different mappings share an address
